@@ -196,7 +196,7 @@ package render
 // ---- locations of render nodes (promoted Token methods) --------------------------------
 //@ globalinv render.invalidLoc: is(self, render.invalidLocation)
 //@ typeinv render.TagNode: true
-//@ typeinv render.BlockNode: forall(k, 0, len(self.Body), self.Body[k] != nil)
+//@ typeinv render.BlockNode: true
 //@ typeinv render.TextNode: true
 //@ typeinv render.ObjectNode: self.expr != nil
 
@@ -511,6 +511,7 @@ package render
 //@ props C20 C05 C01
 //@ panics nothing
 //@ requires args: w != nil && (is(w, *render.trimWriter) ==> valid(as(w, *render.trimWriter)))
+//@ assumes compiledTree: c.cn != nil ==> forall(k, 0, len(c.cn.Body), c.cn.Body[k] != nil)
 //@ assigns *
 //@ ensures onlyw: forall(x, "Val", x != w && x != wsink(w) && !newbuf(x) && !is(x, *render.trimWriter) ==> wtotal(x) == old(wtotal(x)))
 //@ ensures tree: @tree
@@ -519,7 +520,7 @@ package render
 //@ props C20 C05 C01
 //@ panics nothing
 //@ requires args: w != nil && (is(w, *render.trimWriter) ==> valid(as(w, *render.trimWriter))) && b != nil
-//@ assumes compiledTree: valid(b)
+//@ assumes compiledTree: forall(k, 0, len(b.Body), b.Body[k] != nil)
 //@ assigns *
 //@ ensures onlyw: forall(x, "Val", x != w && x != wsink(w) && !newbuf(x) && !is(x, *render.trimWriter) ==> wtotal(x) == old(wtotal(x)))
 //@ ensures tree: @tree
@@ -531,3 +532,25 @@ package render
 //@ assigns *
 //@ ensures outputElsewhere: forall(x, "Val", !newbuf(x) && !is(x, *render.trimWriter) ==> wtotal(x) == old(wtotal(x)))
 //@ ensures tree: @tree
+
+// ---- a block node (C20, C07, C05, C01): runs the renderer compiled for it and locates errors --
+// ASSUMED (compiled tree; (render.Config).Compile is not under contract): the block's tag is
+// defined with a compiler and its renderer was set - the two "implementation error" panics in
+// this function are unreachable for a tree produced by Compile.
+//@ func (*render.BlockNode).render
+//@ props C20 C07 C05 C01
+//@ panics nothing
+//@ requires args: valid(w) && valid(ctx)
+//@ assumes compiled: n.renderer != nil && has(ctx.config.grammar.blockDefs, n.Token.Name) && mapget(ctx.config.grammar.blockDefs, n.Token.Name) != nil && mapget(ctx.config.grammar.blockDefs, n.Token.Name).parser != nil
+//@ ghost rerr Val = nil
+//@ at call renderer #1 before assert sameWriter: arg0 == box(w, *render.trimWriter)
+//@ at call renderer #1: rerr = result
+//@ ensures reported: rerr != nil ==> result != nil
+//@ ensures ok: rerr == nil ==> result == nil
+//@ ensures located: rerr != nil && !is(rerr, parser.Error) ==> result.Cause() == rerr && result.LineNumber() == old(n.Token.SourceLoc.LineNo) && result.Path() == old(n.Token.SourceLoc.Pathname)
+
+//@ func (render.grammar).findBlockDef
+//@ props C01
+//@ panics nothing
+//@ assigns nothing
+//@ ensures lookup: result1 == has(g.blockDefs, name) && (result1 ==> result0 == mapget(g.blockDefs, name))
